@@ -15,6 +15,8 @@ def materialize(root, tree, mtime=1_600_000_000):
         node = tree[p]
         full = os.path.join(root.encode(), p)
         os.makedirs(os.path.dirname(full), exist_ok=True)
+        if node[0] == "h":
+            continue
         if node[0] == "f":
             with open(full, "wb") as fh:
                 fh.write(node[1])
@@ -25,6 +27,9 @@ def materialize(root, tree, mtime=1_600_000_000):
             os.symlink(node[1], full)
         elif node[0] == "p":
             os.mkfifo(full, node[1])
+    for p in tree:
+        if tree[p][0] == "h":     # another name of a file of the tree
+            os.link(os.path.join(root.encode(), tree[p][1]), os.path.join(root.encode(), p))
     # fixed old mtimes so that any touch is visible
     for d, ds, fs in os.walk(root.encode(), topdown=False):
         for n in fs + ds:
